@@ -240,6 +240,26 @@ func (e *Env) Pipe(ip string, port int) *PipeConn {
 	return &PipeConn{C: cli, Done: done}
 }
 
+// PipeAdmitted is Pipe for a connection that went through the accept loop's admission first (address
+// filter, connection limit, registration for idle tracking) and is unregistered when its handler ends,
+// exactly as acceptLoop does it. Returns nil if the connection is refused.
+func (e *Env) PipeAdmitted(ip string, port int) *PipeConn {
+	cli, srv := net.Pipe()
+	sc := &addrConn{Conn: srv, remote: &net.TCPAddr{IP: net.ParseIP(ip), Port: port}}
+	if !e.Srv.VerifAdmit(sc) {
+		cli.Close()
+		srv.Close()
+		return nil
+	}
+	done := make(chan struct{})
+	go func() {
+		defer close(done)
+		defer e.Srv.VerifUnregister(sc)
+		e.Srv.VerifServeConn(sc, e.H, true)
+	}()
+	return &PipeConn{C: cli, Done: done}
+}
+
 // Send writes one record.
 func (p *PipeConn) Send(rec []byte, frags ...int) error {
 	p.C.SetWriteDeadline(time.Now().Add(10 * time.Second))
